@@ -174,8 +174,19 @@ def run_c20(chk, tier, seed):
     from src.h_h2_error_estimator import HH2ErrorEstimator
     results = []
     n_eval = 0
-    for (curve, hs, steps, tg) in c20_cases(tier):
-        mesh = build_mesh(curve, hs + 1000 * seed, steps, tg)
+    for (curve, hs, steps, tg) in c20_cases(tier) + [("UnitSquare", 0, 12 if tier == "thorough" else 11, "deep-corner")]:
+        if tg == "deep-corner":
+            # isotropic refinement towards the corner (t, x) = (0, 0): two-level energies <V psi, psi> down to 1e-11 -- the
+            # indicators are RELATIVE quantities and must not contain absolute thresholds (fourth-round seed)
+            from src import parametrization as P_
+            from src.mesh import MeshParametrized
+            with quiet():
+                mesh = MeshParametrized(P_.UnitSquare())
+                for _ in range(steps):
+                    e0 = min(mesh.leaf_elements, key=lambda e: (e.time_interval[0], e.space_interval[0], e.h_t, e.h_x))
+                    mesh.refine(e0)
+        else:
+            mesh = build_mesh(curve, hs + 1000 * seed, steps, tg)
         elems = list(mesh.leaf_elements)
         rng = np.random.default_rng(hs + seed)
         Phi = rng.normal(size=len(elems))
@@ -191,6 +202,8 @@ def run_c20(chk, tier, seed):
             ok = rel <= 1e-8 and bool(np.all(got >= 0))
             results.append(("hierarchical/{}/steps={}/pw={}".format(curve, steps, pw), ok,
                             dict(curve=curve, history_seed=hs, steps=steps, time_grid=tg, n=len(elems), max_rel=rel)))
+        if tg == "deep-corner":
+            continue            # (the fine system of the h-h/2 estimator is too ill-conditioned for a 1e-7 comparison there)
         with quiet():
             SL = SingleLayerOperator(mesh)
             got = float(HH2ErrorEstimator(SL=SL, g=glin_vec, use_mp=False).estimate(elems, Phi))
@@ -338,6 +351,26 @@ def run_c09(chk, tier, seed):
         rel = float(max(np.max(np.abs(sob[:, 1] - full_space) / np.maximum(np.abs(full_space), 1e-300)),
                         np.max(np.abs(sob[:, 0] - full_time) / np.maximum(np.abs(full_time), 1e-300))))
         results.append(("symmetry-shortcut-equals-full-evaluation/{}".format(curve), rel <= 1e-12, dict(curve=curve, max_rel=rel)))
+        # the caller may hand over the leaves in any order (sorted by position, reversed, shuffled): the indicator of an element
+        # must not depend on its position in the list
+        worst_perm = 0.0
+        rngp = random.Random(31 + hs + seed)
+        for kind in ("reversed", "by-position", "shuffled"):
+            idx = list(range(len(elems)))
+            if kind == "reversed":
+                idx.reverse()
+            elif kind == "by-position":
+                idx.sort(key=lambda i: (elems[i].space_interval[0], elems[i].time_interval[0]))
+            else:
+                rngp.shuffle(idx)
+            with quiet():
+                sob_p = ee.estimate_sobolev([elems[i] for i in idx], residual, use_mp=False)
+            n_eval += len(elems)
+            for pos, i in enumerate(idx):
+                for col, full in ((0, full_time), (1, full_space)):
+                    worst_perm = max(worst_perm, abs(sob_p[pos, col] - full[i]) / max(abs(full[i]), 1e-300))
+        results.append(("indicator-independent-of-the-order-of-the-element-list/{}".format(curve), worst_perm <= 1e-12,
+                        dict(curve=curve, max_rel=worst_perm)))
         real = mp.cpu_count
         try:
             for w in (2, 5):
